@@ -53,7 +53,7 @@ Qed.
 
 Fixpoint eval_nat (e : expr) : forall rho k k', krel k k' -> h (eval O R err rho e k) = eval O R' err' rho e k'.
 Proof.
-  destruct e as [v|x|e a|o a b|a rest|a b|a b|a|c a b|elt x it cond|elt x it cond|e key|e n|e|es|neg e c];
+  destruct e as [v|x|e a|o a b|a rest|a b|a b|a|c a b|elt x it cond|elt x it cond|e key|e n|e|es|neg e c|f args];
     intros rho k k' Hk; simpl.
   - apply Hk.
   - apply Hk.
@@ -84,6 +84,9 @@ Proof.
     apply eval_nat. intros v. apply IH.
   - apply eval_nat. intros v. apply eval_nat. intros vc. destruct vc; auto.
     induction l as [|x l IH]; [apply Hk|]. apply veq_k_nat. intros [|]; [apply Hk|apply IH].
+  - generalize (@nil val) as acc. induction args as [|e1 es IH]; intros acc.
+    + destruct (ocall O f (rev acc)); auto; apply Hk.
+    + apply eval_nat. intros v. destruct v; auto; apply IH.
 Qed.
 
 Variables (kret : env -> val -> R) (kret' : env -> val -> R').
@@ -99,7 +102,7 @@ Proof.
                   match l with [] => k rho | s :: l' => exec O R' kret' err' s rho (fun rho' => block l' rho' k) end) l rho k'
             -> True) by auto.
   clear Hblock.
-  destruct s as [ts e|t o e|c th el|x e|e|x it body|]; intros rho k k' Hk; simpl.
+  destruct s as [ts e|t o e|c th el|x e|e|x it body|e|ts e|]; intros rho k k' Hk; simpl.
   - apply eval_nat. intros v. apply Hk.
   - apply eval_nat. intros v. apply arith_k_nat. intros r. apply Hk.
   - apply eval_nat. intros vc. apply bool_k_nat. intros [|].
@@ -111,6 +114,8 @@ Proof.
     apply gen_iter_nat; [|exact Hk]. intros v rho0 kk kk' Hkk.
     generalize (update x v rho0). induction body as [|s1 body IH]; intros rho1; [apply Hkk|].
     apply exec_nat. intros rho'. apply IH.
+  - apply eval_nat. intros v. apply bool_k_nat. intros [|]; [apply Hk|apply Herr].
+  - apply eval_nat. intros v. destruct v; auto. destruct (Nat.eqb _ _); auto; apply Hk.
   - apply Hk.
 Qed.
 
